@@ -72,7 +72,7 @@ TGetChild ==
           /\ UNCHANGED <<snaps, ghost>>
 
 (* a read that failed because of an injected fault changes nothing *)
-TReadFailed == (IsEvent("GC") \/ IsEvent("GS")) /\ E.res = "error" /\ UNCHANGED cvars
+TReadFailed == (IsEvent("GC") \/ IsEvent("GS")) /\ E.res = "error" /\ E.faulted /\ UNCHANGED cvars
 
 TAddSnapshot ==
   /\ IsEvent("AS") /\ WithSnapshots
